@@ -180,6 +180,10 @@ func runJSONCase(c jsonCase) *core.Failure {
 	if len(enums) > 0 {
 		opts = append(opts, newqf.Enums(enums))
 	}
+	// a read that FAILS (other keys, then a record of the wrong type) directly before: nothing of it may show up in the next read
+	if bad := qframe.ReadJSON(strings.NewReader(`[{"LEFTOVER":1.5,"OTHER":"x"}, 7]`)); bad.Err == nil {
+		return core.Failf("ReadJSON accepted a document whose second record is a number")
+	}
 	back := model.Observe(qframe.ReadJSON(bytes.NewReader(out), opts...))
 	if d := model.Diff(want, back); d != "" {
 		return core.Failf("ReadJSON(ToJSON(frame)) differs: %s\n %s\n want: %s\n  got: %s", d, desc, want, back)
